@@ -191,6 +191,29 @@ fn generate(cli: &Cli) -> (Vec<Case>, Vec<String>) {
         }
     }
 
+    // F8: a client that pipelines instead of waiting for replies (frames coalesce in the socket
+    // buffer, also across the switch to encryption): same trace as the reactive client
+    for (bi, spec) in bases().iter().enumerate() {
+        let base = build_base(spec, cli.seed.wrapping_mul(37).wrapping_add(bi as u64));
+        for keep_login_success_wait in [false, true] {
+            let mut v = base.clone();
+            v.client.script.retain(|a| match a {
+                Act::AwaitPkt { name, .. } => *name == "EncryptionRequest" || (keep_login_success_wait && *name == "LoginSuccess"),
+                _ => true,
+            });
+            for (ri, rp) in [ReadPlan::default(), ReadPlan { chunks: vec![3], pending: vec![] }, ReadPlan { chunks: vec![500], pending: vec![true, false] }].into_iter().enumerate() {
+                let mut v = v.clone();
+                v.read_plan = rp;
+                cases.push(Case {
+                    class: format!("{}/pipelined{}/read-plan-{ri}", spec.name, if keep_login_success_wait { "-after-login" } else { "" }),
+                    shape: "read/pipelined-client/all".into(),
+                    base: base.clone(),
+                    variant: v,
+                });
+            }
+        }
+    }
+
     // F4: a backend completion lands between the two segments of a configuration-phase frame
     let frames: Vec<(&str, Pkt)> = vec![
         ("PluginMessageSmall", plugin_message(4)),
